@@ -98,6 +98,14 @@ class Scheduler:
             if me == st[1] and self.steps_of[me] == st[2]:
                 return st[3][0] if st[3][0] in others else others[0]
             return me
+        if st[0] == "forced2":
+            # ("forced2", a, k, b): a is parked at its k-th yield, b runs its first request, a then
+            # finishes, and only then b issues its second request
+            if me == st[1] and self.steps_of[me] == st[2]:
+                return st[3] if st[3] in others else me
+            if me == st[3] and label == "step-boundary":
+                return st[1] if st[1] in others else me
+            return me
         return me
 
     def on_finish_pick(self):
@@ -112,6 +120,11 @@ class Scheduler:
         st = self.strategy
         if st[0] == "forced":
             for i in st[3]:
+                if i in r:
+                    return i
+            return r[0]
+        if st[0] == "forced2":
+            for i in (st[3], st[1]):
                 if i in r:
                     return i
             return r[0]
@@ -277,11 +290,12 @@ class SchedRun:
         # worker, restart overlapping the old process, store cache eviction)
         plan["lazy_open"] = mode == "procs" and r.random() < 0.5
         # a node may issue a second request after its first one (same handle, later in time)
-        if r.random() < 0.35:
+        if r.random() < 0.45:
             j = r.randrange(len(ops))
             k = r.random()
-            if k < 0.6:
-                uid = r.choice(["uid-shared", "uid-0", "uid-then"])
+            if k < 0.7:
+                other_uids = [o["uid"] for i2, o in enumerate(ops) if i2 != j and o.get("uid")]
+                uid = r.choice(other_uids) if (other_uids and r.random() < 0.6) else r.choice(["uid-shared", "uid-0", "uid-then"])
                 ops[j]["then"] = {"op": "put", "name": "then%d.ics" % j, "uid": uid, "cond": None, "body": gen.ics(r, uid, rich=0, summary="then").decode("latin-1")}
             else:
                 ops[j]["then"] = {"op": "delete", "name": r.choice(names), "cond": None}
@@ -343,6 +357,9 @@ class SchedRun:
                 r1 = ("exc", e)
             t1 = now()
             times[(node, 0)] = (t0, t1)
+            if self._sch is not None:
+                self._sch.yield_point("step-boundary")
+                t1 = now()
             try:
                 r2 = ("ok", then(s))
             except Exception as e:  # noqa: BLE001
@@ -444,7 +461,7 @@ class SchedRun:
         if not explicit:
             counts = self.measure(plan, pre_dir, pre_state, work)
             self.count("yield_points_total", sum(counts))
-            budget = 24 if self.tier == "quick" else 400
+            budget = int(os.environ.get("XSIM_SCHED_BUDGET", "0")) or (24 if self.tier == "quick" else 400)
             cands = []
             # depth-1 pre-emptions: node a parked at its k-th yield, the others run to completion
             for a in range(n):
@@ -456,6 +473,10 @@ class SchedRun:
                 forced = rng.sample(cands, budget // 2)
             else:
                 forced = cands
+            # with a two-request node: park a, let b's first request run, finish a, then b's second request
+            cands2 = [("forced2", a, k, b) for b in range(n) if plan["ops"][b].get("then") for a in range(n) if a != b for k in range(1, counts[a] + 1)]
+            if cands2:
+                forced = forced[: max(1, len(forced) // 2)] + rng.sample(cands2, min(len(cands2), budget // 3))
             self.depth1_done = len(forced)
             strategies = list(forced)
             while len(strategies) < budget:
@@ -542,7 +563,7 @@ class SchedRun:
         else:
             srng = random.Random(rng.getrandbits(64))
             sch = Scheduler(n, sc, srng)
-            first = sc[1] if sc[0] == "forced" else (max(range(n), key=lambda i: sch.prio[i]) if sc[0] == "pct" else srng.randrange(n))
+            first = sc[1] if sc[0] in ("forced", "forced2") else (max(range(n), key=lambda i: sch.prio[i]) if sc[0] == "pct" else srng.randrange(n))
         FS.hook = lambda kind, paths, mut: sch.yield_point(kind)
         FS.active = True
         tracer = make_tracer(sch) if plan["mode"] == "threads" else None
@@ -613,7 +634,7 @@ class SchedRun:
 
         def before(x, y):
             """x had completed (strictly) before y started: every sequential explanation must keep that order."""
-            return x in times and y in times and times[x][1] < times[y][0]
+            return x in times and y in times and times[x][1] <= times[y][0] and x != y
 
         def respects_real_time(order):
             pos = {sk: j for j, sk in enumerate(order)}
